@@ -82,14 +82,22 @@ SrcBody(id) ==
       \* an engine global (every engine has its own value of g)
       [] id = 29 -> <<T(<<103, 61>>), PrintS(Var("g")), PrintS(Var("x"))>>
       \* pages in two directories that call one library macro, which includes its caller's neighbour ./b
-      [] id = 30 -> <<Import(LS(<<108, 98>>), "L"), T(<<60>>), PrintS(MCall("L", "inc", <<>>)), T(<<62>>), PrintS(Var("x"))>>
+      \* (... and which imports its caller's neighbour ./hq for a macro of its own)
+      [] id = 30 -> <<Import(LS(<<108, 98>>), "L"), T(<<60>>), PrintS(MCall("L", "inc", <<>>)), T(<<124>>), PrintS(MCall("L", "imp", <<>>)), T(<<62>>), PrintS(Var("x"))>>
       [] id = 31 -> <<T(<<83>>), PrintS(Var("x"))>>
-      [] id = 32 -> <<Macro("inc", <<>>, <<T(<<105, 58>>), Inc(LS(<<46, 47, 98>>))>>)>>
+      [] id = 32 -> <<Macro("inc", <<>>, <<T(<<105, 58>>), Inc(LS(<<46, 47, 98>>))>>),
+                      Macro("imp", <<>>, <<Import(LS(<<46, 47, 104, 113>>), "H"), PrintS(MCall("H", "hm", <<>>))>>)>>
+      \* two sources that differ in two bytes and have the same 31-multiplier hash ("Aa" / "BB")
+      [] id = 33 -> <<T(<<72, 105, 32, 65, 97, 44>>), PrintS(Var("x"))>>
+      [] id = 34 -> <<T(<<72, 105, 32, 66, 66, 44>>), PrintS(Var("x"))>>
+      \* the helpers ./hq of the two directories
+      [] id = 35 -> <<Macro("hm", <<>>, <<T(<<80, 104>>)>>)>>
+      [] id = 36 -> <<Macro("hm", <<>>, <<T(<<83, 104>>)>>)>>
 SrcPieces(id) == IF id = 3 THEN RawSyntaxError ELSE Source(SrcBody(id), LMin)
-AllSrc == 1..32
+AllSrc == 1..36
 IsSyntaxError(id) == id = 3
 RefersToN2 == {5, 6, 8, 13, 25}
-SrcFor(n) == IF n = "n1" THEN {1, 2, 3, 4, 5, 6, 8, 10, 12, 13, 14, 15, 16, 18, 23, 25} ELSE {1, 3, 4, 7, 9, 10, 14, 15, 16, 17, 19, 24}     \* no recursion: only n1 refers to n2
+SrcFor(n) == IF n = "n1" THEN {1, 2, 3, 4, 5, 6, 8, 10, 12, 13, 14, 15, 16, 18, 23, 25, 33} ELSE {1, 3, 4, 7, 9, 10, 14, 15, 16, 17, 19, 24, 34}     \* no recursion: only n1 refers to n2
 LoaderSrc == 11                   \* content of n3 in the loader
 CtxIds == {1, 2, 3}              \* 3: context 1 plus 70 more variables (a large variable map)
 Filler == [n \in {"f" \o ToString(i) : i \in 1..70} |-> VI(1)]
@@ -203,7 +211,7 @@ NoStaleRender == \A i \in 1..Len(hist) : hist[i].op \in {"render", "renderh"} =>
 Header == [hdr |-> TRUE, prop |-> "C01",
            sources |-> [id \in AllSrc |-> SrcPieces(id)],       \* printed as a JSON array: index id-1
            ctxs |-> [c \in CtxIds |-> CtxOf(c)],
-           loader |-> [n3 |-> LoaderSrc, pm |-> 27, pb |-> 28, ph |-> 30, sh |-> 30, sb |-> 31, lb |-> 32],
+           loader |-> [n3 |-> LoaderSrc, pm |-> 27, pb |-> 28, ph |-> 30, sh |-> 30, sb |-> 31, lb |-> 32, phq |-> 35, shq |-> 36],
            fs |-> <<[n5 |-> 20], [n4 |-> 21, n5 |-> 22]>>,          \* search paths in order: name -> source id
            nopolicy |-> {e \in Engines : ~HasPolicy(e)},
            policy |-> [filters |-> {"upper", "default", "escape"}, functions |-> {"parent", "range"}]]
